@@ -41,25 +41,52 @@ def _toplevel_assign(tree, name):
     return found[0].value if found else None
 
 
-def _banned_reserved(rel):
+def _banned_reserved(rel, live_mod):
+    """(_banned, _reserved, whether each is ordered).  The LIVE module objects are what is emitted; the literal forms of the
+    source (`_banned = [...]`, `_reserved = _banned + [...]` / `_banned | {...}`, possibly wrapped in list()/frozenset()/...)
+    give the order and must agree with the live objects when they can be read."""
     tree = src(rel)
-    b = _toplevel_assign(tree, "_banned")
-    if b is None:
+    if not hasattr(live_mod, "_banned"):
         die(f"{rel}: _banned not found")
-    banned, b_ord = _str_list(b, rel + ":_banned")
-    r = _toplevel_assign(tree, "_reserved")
-    r_ord = b_ord
-    if r is None:
-        reserved = list(banned)
-    else:
-        # `_banned + [...]` (sequences) or `_banned | {...}` (sets)
-        if not (isinstance(r, ast.BinOp) and isinstance(r.op, (ast.Add, ast.BitOr)) and isinstance(r.left, ast.Name)
-                and r.left.id == "_banned"):
-            die(f"{rel}: _reserved is not `_banned + [...]` / `_banned | {{...}}`")
-        more, m_ord = _str_list(r.right, rel + ":_reserved")
-        r_ord = b_ord and m_ord and isinstance(r.op, ast.Add)
-        reserved = banned + [x for x in more if x not in banned]
-    return tree, banned, reserved, b_ord, r_ord
+    lb = list(live_mod._banned)
+    lr = list(getattr(live_mod, "_reserved", live_mod._banned))
+    for xs, what in ((lb, "_banned"), (lr, "_reserved")):
+        if not all(isinstance(x, str) for x in xs) or len(set(xs)) != len(xs):
+            die(f"{rel}: live {what} is not a collection of distinct strings")
+    b_ord = isinstance(live_mod._banned, (list, tuple))
+    r_ord = isinstance(getattr(live_mod, "_reserved", live_mod._banned), (list, tuple))
+
+    def _source():
+        b = _toplevel_assign(tree, "_banned")
+        if b is None:
+            die("no literal")
+        banned, bo = _str_list(b, rel + ":_banned")
+        r = _toplevel_assign(tree, "_reserved")
+        ro = bo
+        if r is None:
+            reserved = list(banned)
+        else:
+            if not (isinstance(r, ast.BinOp) and isinstance(r.op, (ast.Add, ast.BitOr)) and isinstance(r.left, ast.Name)
+                    and r.left.id == "_banned"):
+                die("shape")
+            more, mo = _str_list(r.right, rel + ":_reserved")
+            ro = bo and mo and isinstance(r.op, ast.Add)
+            reserved = banned + [x for x in more if x not in banned]
+        return banned, reserved, bo, ro
+
+    sf = soft(_source)
+    if sf is not None:
+        banned, reserved, bo, ro = sf
+        _same(lb, banned, bo and b_ord, rel + ":_banned")
+        if hasattr(live_mod, "_reserved") or _toplevel_assign(tree, "_reserved") is None:
+            _same(lr, reserved, ro and r_ord, rel + ":_reserved")
+        return tree, banned, reserved, bo, ro
+    return tree, lb, lr, b_ord, r_ord
+
+
+def _same(live, read, ordered, what):
+    if (list(live) != read) if ordered else (set(live) != set(read) or len(list(live)) != len(read)):
+        die(f"{what}: ast reading differs from the live object")
 
 
 def _printable(names, what):
@@ -69,22 +96,10 @@ def _printable(names, what):
     return names
 
 
-mtree, m_banned, m_reserved, m_bo, m_ro = _banned_reserved("hdl21/module.py")
-btree, b_banned, b_reserved, b_bo, b_ro = _banned_reserved("hdl21/bundle.py")
-
 import sys, hdl21
 _hm, _hb = sys.modules["hdl21.module"], sys.modules["hdl21.bundle"]
-
-
-def _same(live, read, ordered, what):
-    if (list(live) != read) if ordered else (set(live) != set(read) or len(list(live)) != len(read)):
-        die(f"{what}: ast reading differs from the live object")
-
-
-_same(_hm._banned, m_banned, m_bo, "module._banned")
-_same(_hb._banned, b_banned, b_bo, "bundle._banned")
-_same(getattr(_hm, "_reserved", _hm._banned), m_reserved, m_ro, "module._reserved")
-_same(getattr(_hb, "_reserved", _hb._banned), b_reserved, b_ro, "bundle._reserved")
+mtree, m_banned, m_reserved, m_bo, m_ro = _banned_reserved("hdl21/module.py", _hm)
+btree, b_banned, b_reserved, b_bo, b_ro = _banned_reserved("hdl21/bundle.py", _hb)
 # un-ordered source forms are emitted sorted (the theorems use membership only)
 if not m_bo: m_banned = sorted(m_banned)
 if not m_ro: m_reserved = sorted(m_reserved)
